@@ -44,7 +44,7 @@ def gen(run):
         for rd in ("cursor", "strict"):
             yield P.case_dense(rd, P.DEFAULT_MAX, None, b"".join(lay)), "seed-layouts"
     yield from P.gap_lattice(rng)
-    yield from P.rewrite_cases(rng, 600 if quick else 12000, huge=0.0 if quick else 0.3)
+    yield from P.rewrite_cases(rng, 600 if quick else 12000)
     yield from P.tree_mutations(rng, 100 if quick else 3000)
 
 
@@ -57,7 +57,7 @@ REQUIRES = ["From Coq Require Import List NArith ZArith Bool.", "From Coq.String
 THEOREMS = [
     ("C04_moov_identical_outside_tables", """
   forall (p : bytes) (kids : list node) (rs : list region) (d : Z) (kids' : list node) (u : list unit),
-  moov_check p = Ok kids -> co_regions p = Some rs -> (- 2 ^ 31 < d < 2 ^ 31)%Z ->
+  moov_check p = Ok kids -> co_regions p = Some rs -> (- 2 ^ 31 <= d < 2 ^ 31)%Z ->
   each_trak kids (shift_table (shift_entry 32 d) (shift_entry 64 d)) = Ok (kids', u) ->
   put_nodes kids = p /\\ blen (put_nodes kids') = blen p /\\ masked_eq rs p (put_nodes kids') = true"""),
     ("C04_ftyp_identical", """
@@ -78,7 +78,7 @@ ASSUMPTIONS = fam.ASSUMPTIONS_COMMON + [
 RULE = ("moov trees with unknown siblings (udta, uuid-typed, empty free, a stray stco outside the stbl path) before and after the path box at each of the "
         "levels trak/mdia/minf/stbl, child header forms 32-bit / 64-bit / until-end at each level, moov header 32/64/until-end, stco and co64 with "
         "boundary entries; ftyp payloads of every length 8..40 and 1021..1025; seed layouts; gap lattice; structure-aware random rewrite layouts; tree "
-        "mutations; thorough adds the padding boundary and multi-GiB gaps. Oracle: ftyp payload of the returned metadata equals the input's; moov payload "
+        "mutations; thorough adds the 2^32-9 / 2^32-8 padding boundary. Oracle: ftyp payload of the returned metadata equals the input's; moov payload "
         "has the same length and equals the input's last moov payload outside the entry tables (independent Python walker for the mask + extracted "
         "Spec view of both). Non-trivial = at least 40 bytes present; distinct = distinct case line.")
 LEVEL_TEXT = ("Coq theorems (no axioms, all payloads, no bound) about the box-tree model for ONE moov payload: the tree kept for an accepted moov "
